@@ -31,6 +31,12 @@ cOpsAll == cOpsCore \cup {"from_char","clone_from","retain","extend","collect","
 cOpsMut == {"clone","drop","reserve","shrink_to","push_str","pop","clear","truncate","remove","insert_str","clone_from","retain","extend"}
 cOpsIdx == {"truncate","remove","insert_str"}
 cSeedsEmpty == { <<>> }
+\* raw byte sequences: valid, truncated lead, bad continuation, overlong, surrogate, long runs crossing the inline limit
+cRaw == { <<97, 255, 98>>, <<240, 144, 128>>, <<226, 130>> \o A15 \o <<237, 160, 128, 99>>, A17 \o <<192, 175, 244, 144>>, <<>>, G4 \o A15 }
+cRawNone == {}
+cU16 == { <<97, 55296, 98>>, <<55357, 56832, 97>>, <<56320>>, <<>>, [i \in 1..18 |-> IF i = 9 THEN 55296 ELSE 8364] }
+cU16None == {}
+cOpsDecode == {"from_utf8_lossy", "from_utf16", "push_str", "pop", "clone", "drop", "shrink_to", "reserve"}
 cCapsSizes == {0, 1, 15, 16, 17, 30, BIG, TOOLONG, OVERFLOW}
 cHintsSizes == {0, 20, BIG, TOOLONG, OVERFLOW}
 
